@@ -52,9 +52,10 @@ FIXTURES = {
 }
 
 
-def build(fx_name, pfx="s", atoms=("a", "b", "c", "d")):
+def build(fx_name, pfx="s", atoms=("a", "b", "c", "d"), u=None):
     fx = FIXTURES[fx_name]
-    u = Universe(fx["live"], {}, 3, keys=(".NAME",), atoms=atoms)
+    if u is None:
+        u = Universe(fx["live"], {}, 3, keys=(".NAME",), atoms=atoms)
     h = Heap.symbolic(u, pfx).apply_shape(fx["shape"])
     # references, reference sets, top instance, pin maps: concrete
     for i in range(u.live["Instance"]):
